@@ -32,10 +32,15 @@ PARTIAL = ["C05_program is for runs inside PyFragment (Spec/PyProg.lean, table I
            "secretExponentWraps (C05-secret-exponent-mod-p: exactly when x**e, for shifts 2**e, is outside [0,p): C05_powWraps_exact); "
            "x >> n with a negative public n is inside the fragment since the repair of C05-rshift-negative (it raises, as Python does: "
            "C05_rshift_negative_raises)",
-           "C05_program_total additionally needs PySupported (table Instr.pyGap): kinds (API raises by type dispatch / both operands plain), "
-           "and NOT YET COMPOSED: secretExponent (secret exponent / shift count), secretIndex (secret-index array access), assertion "
-           "(assert* methods: C03); and InDomain (exact bounds pyDomBin/pyDomCall; negative divisors of //, %, divmod are outside: "
-           "C05-neg-divisor; contains the harness domain by C05_domain_of_small)"]
+           "C05_program_total additionally needs PySupported (table Instr.pyGap; one reason left: kinds = the API raises by type dispatch "
+           "alone / both operands plain; secret exponent / shift count, secret-index array access and the assert_* methods are COVERED) and "
+           "InDomain (exact bounds pyDomBin / pyDomCall / pyDomIdx on the reference values, the traced run replayed only to tell a secret "
+           "exponent / count / index from a public one; negative divisors of //, %, divmod are outside: C05-neg-divisor; secret exponent and "
+           "<< count in [0, 2^bl), secret >> count in [0, bl] (the gadget floor-divides by the secret 2^count, a divisor that must be <= 2^bl: "
+           "a larger count raises where Python returns 0), secret index in [0, len) with len <= p (a negative secret index raises: C15), "
+           "assert_*: the relation holds on the reference values and the range-checked difference fits the bitlength as for the comparison "
+           "operator, assert_nonzero / assert_ne invertible mod p; contains the harness domain by C05_domain_of_small, "
+           "C05_assert_domain_of_small)"]
 LEVELS = "V"
 INT_OPS = progs.BINOPS
 KINDS = [("L", "L"), ("L", "I"), ("I", "L"), ("B", "B"), ("B", "L"), ("L", "B"), ("B", "I"), ("I", "B")]
